@@ -164,7 +164,7 @@ pub fn noise(rng: &mut Rng, phase: Phase, max_pair: usize) -> Rec {
         5 => Rec::new(T_GETVALUES, { let i = foreign(rng); if i == 0 { 7 } else { i } }, gv_body(rng, max_pair), pad_bytes(rng)),  // GetValues with a request id: skipped
         6 => match phase {
             Phase::Active(_) => { let mut id = foreign(rng); if id == 0 { id = 9 } if Phase::Active(id) == phase { id ^= 1; if id == 0 { id = 2; } } begin(id, rng.range(0, 5) as u16, rng.next() as u8, pad_bytes(rng)) }
-            Phase::Idle => begin(rng.below(65536) as u16, *rng.pick(&[0u16, 4, 5, 255, 256, 65535]), rng.next() as u8, pad_bytes(rng)),   // unknown role: rejected, not started
+            Phase::Idle => begin(if rng.chance(1, 5) { 0 } else { rng.below(65536) as u16 }, *rng.pick(&[0u16, 4, 5, 255, 256, 65535]), rng.next() as u8, pad_bytes(rng)),   // unknown role: rejected, not started
         },
         7 => { let t = *rng.pick(&[T_ABORT, T_END, T_PARAMS, T_STDIN, T_STDOUT, T_STDERR, T_DATA, T_GETVALUESRESULT, T_UNKNOWN]); Rec::new(t, foreign(rng), small(rng), pad_bytes(rng)) }
         8 => match phase {
